@@ -407,6 +407,70 @@ def run(tier, seed, replay=None):
             if not cyc[0] and da.get("MaxDepth") != (max(depth.values()) if depth else 0):
                 res.violation("C12 metrics: MaxDepth %s, the longest import chain of the reported (acyclic) graph has %d edges" % (da.get("MaxDepth"), max(depth.values()) if depth else 0),
                               {"signature": {"kind": "metric", "what": "maxdepth"}, "files": files})
+        # ---- MaxDepth on graph-shaped projects (cycles with tails, several components): model of the DFS + brute force --------------------
+        ngraphs = 25 if tier == "quick" else 250
+        for gi in range(ngraphs):
+            n = rng.randint(2, 8)
+            shape = rng.choice(["random", "cycle_tail_island", "dag", "two_cycles"])
+            edges = set()
+            if shape == "cycle_tail_island" and n >= 5:
+                k = rng.randint(2, n - 3)
+                for i in range(k):
+                    edges.add((i, (i + 1) % k))
+                for i in range(k, n - 2):
+                    edges.add((i - 1 if i > k else rng.randrange(k), i))
+                edges.add((n - 2, n - 1))
+            elif shape == "dag":
+                for a in range(n):
+                    for b in range(a + 1, n):
+                        if rng.random() < 0.35:
+                            edges.add((a, b))
+            else:
+                for _ in range(rng.randint(1, 2 * n)):
+                    a, b = rng.randrange(n), rng.randrange(n)
+                    if a != b:
+                        edges.add((a, b))
+            groot = os.path.join(tmp, "g%d" % gi, "proj")
+            os.makedirs(groot)
+            open(os.path.join(groot, "requirements.txt"), "w").close()
+            for a in range(n):
+                with open(os.path.join(groot, "m%d.py" % a), "w") as f:
+                    f.write("".join("import m%d\n" % b for (x, b) in sorted(edges) if x == a) + "def f%d():\n    return 1\n" % a)
+            rc, data, err = C.pyscn_json(["proj"], os.path.dirname(groot), extra=["--select", "deps"])
+            da = ((data or {}).get("system") or {}).get("DependencyAnalysis") if data else None
+            hist["depth_graphs"] = hist.get("depth_graphs", 0) + 1
+            if not da:
+                res.violation("analyze --select deps produced no dependency analysis: %s" % err[-300:], {"edges": sorted(edges), "n": n})
+                continue
+            adj = {a: [b for (x, b) in sorted(edges) if x == a] for a in range(n)}
+
+            def walk(u, path, d):
+                if u in path:
+                    return d
+                best = d
+                for v in adj[u]:
+                    best = max(best, walk(v, path | {u}, d + 1))
+                return best
+            brute = max(walk(u, frozenset(), 0) for u in range(n))
+            simple = [0]
+
+            def longest(u, path, d):
+                simple[0] = max(simple[0], d)
+                for v in adj[u]:
+                    if v not in path:
+                        longest(v, path | {v}, d + 1)
+            for u in range(n):
+                longest(u, frozenset([u]), 0)
+            if os.path.exists(C.driver_path()):
+                mo = C.driver_batch(["deps %d %d %s" % (n, len(edges), " ".join("%d %d" % e for e in sorted(edges)))])[0].split("|")
+                if int(mo[3]) != brute:
+                    ps.ok = False
+                    ps.broken.append("PV.Imports.maxDepth = %s, brute force over simple paths (+ closing edge) = %d on %s" % (mo[3], brute, sorted(edges)))
+            acyclic = brute == simple[0]
+            if da.get("MaxDepth") != brute:
+                res.violation("C12 metrics: MaxDepth %s on the graph %s; the longest import chain has %d edges%s" % (da.get("MaxDepth"), sorted(edges), simple[0],
+                              "" if acyclic else " (%d when the edge that closes a cycle is counted, as the depth search does)" % brute),
+                              {"signature": {"kind": "metric", "what": "maxdepth"}, "n": n, "edges": sorted(edges), "shape": shape})
     finally:
         shutil.rmtree(tmp, ignore_errors=True)
     if not ps.ok and not any(fi for _, _, fi in res.violations):
